@@ -34,7 +34,7 @@ sh(f"git apply {out}/patch.diff", cwd=wt)
 ran = {}
 for cid in checks:
     t0 = time.time()
-    c, o = sh(f"./check.sh {cid} quick", cwd="/verif", env={"TCHERAN_SRC": f"{wt}/src", "VERIF_TARGET": "/tmp/tcheran-seed-target", "VERIF_EVIDENCE_OUT": "/tmp/tcheran-seed-evidence.json"})
+    c, o = sh(f"./check.sh {cid} quick", cwd="/verif", env={"TCHERAN_SRC": f"{wt}/src", "VERIF_TARGET": os.environ.get("SEED_TARGET", "/tmp/tcheran-seed-target"), "VERIF_EVIDENCE_OUT": os.environ.get("SEED_TARGET", "/tmp/tcheran-seed-target") + "-evidence.json"})
     sig = [l.strip() for l in o.splitlines() if "(signature" in l][:2]
     ran[cid] = {"exit": c, "seconds": round(time.time() - t0, 1), "first_violation": sig[0][:300] if sig else ""}
     print(cid, "exit", c, f"{time.time()-t0:.0f}s", sig[0][:200] if sig else "")
